@@ -672,7 +672,7 @@ func runC34(tier, replay string) {
 	rng := r.Rand()
 
 	// (1) middleware directly
-	nSets := r.N(450, 18000)
+	nSets := r.N(1200, 24000)
 	perSet := 10
 	for si := 0; si < nSets; si++ {
 		rg := rng.Fork(fmt.Sprintf("mw-%d", si))
@@ -698,7 +698,7 @@ func runC34(tier, replay string) {
 		r.Inconclusive(err.Error())
 		r.Finish()
 	}
-	nSrvSets := r.N(50, 1500)
+	nSrvSets := r.N(120, 2500)
 	for si := 0; si < nSrvSets; si++ {
 		rg := rng.Fork(fmt.Sprintf("srv-%d", si))
 		rules, kinds := genRules(rg)
@@ -794,6 +794,7 @@ func runC34(tier, replay string) {
 				// a real client cannot put a blank into the request line; lower-case methods stay
 				q.Method = strings.TrimSpace(q.Method)
 			}
+			r.Count("server_request_target:"+sig[strings.LastIndex(sig, "|")+1:], 1)
 			c := c34Case{Via: "server", Rules: stored, Req: q}
 			if strings.HasPrefix(q.Path, "/plainb") || q.Path == "/" {
 				c.Rules = nil
